@@ -12,7 +12,7 @@
 (*                                                                         *)
 (* Acc(p) is exactly `PAT_p.match(s) is not None` for the string read so   *)
 (* far: anchored at the start, prefix match, `$` = at the end or just      *)
-(* before a final newline.                                                 *)
+(* before a final newline (FinEndNL), `\Z` = at the very end only.          *)
 (***************************************************************************)
 EXTENDS Naturals, Sequences, FiniteSets, TLC, Json, EventCodesNFA
 
@@ -32,7 +32,7 @@ Init == /\ live = [p \in P |-> {1}]
 
 Read(c) == /\ live' = [p \in P |-> Step(live[p], p, c)]
            /\ sticky' = sticky \cup {p \in P : Step(live[p], p, c) \cap FinNoEnd[p] # {}}
-           /\ prevEnd' = {p \in P : live[p] \cap FinEnd[p] # {}}
+           /\ prevEnd' = {p \in P : live[p] \cap FinEndNL[p] # {}}
            /\ lastNL' = (c = NLClass)
            /\ w' = Append(w, c)
 
@@ -48,7 +48,7 @@ Accepted == {PatNames[p] : p \in {q \in P : AccP(q)}}
 AccAfter(c) ==
     LET lv == [p \in P |-> Step(live[p], p, c)]
         st == sticky \cup {p \in P : lv[p] \cap FinNoEnd[p] # {}}
-        pe == {p \in P : live[p] \cap FinEnd[p] # {}}
+        pe == {p \in P : live[p] \cap FinEndNL[p] # {}}
     IN {PatNames[p] : p \in {q \in P : q \in st \/ lv[q] \cap FinEnd[q] # {} \/ (c = NLClass /\ q \in pe)}}
 
 (***************************************************************************)
